@@ -143,6 +143,16 @@ class ExtraOps:
 
             self.violate("engine_mismatch", {"expected": [l.mv.engine, r.mv.engine], "got": eng, "op": op},
                          entry=Entry(rel, l.mv, op, [l, r]))
+        if l.mv.engine != r.mv.engine and op.get("bt") is False and op.get("tr") and not op.get("direct") \
+                and not (l.rel.is_join_identity or r.rel.is_join_identity):
+            # backtracking was ruled out by the caller: the only legal result is the join in the other operand's
+            # engine (over a transfer of this operand, which may legitimately simplify away a round trip)
+            from .execu import Entry
+
+            if eng != r.mv.engine:
+                self.violate("transfer_flag_ignored", {"op": op, "result_engine": eng, "expected_engine": r.mv.engine,
+                                                       "returned": str(rel)[:200]},
+                             entry=Entry(rel, l.mv, op, [l, r]))
         lv = l.mv
         return M.m_join(lv, r.mv, p, engine=eng)
 
@@ -378,6 +388,18 @@ class ExtraOps:
                                               "verdict_doomed": d.is_doomed}, entry=t)
                 return
         self.stats["diag:" + mode] += 1
+        if mode == "real" and d.is_doomed and not w.fault.fired:
+            # what the engines actually return for this very tree (cached payloads included) must be empty too
+            try:
+                from .execu import Entry
+
+                real_rows, _ = self.evaluate(Entry(t.rel, t.mv, op, []))
+            except Exception:  # noqa  (execution defects are other properties' business)
+                real_rows = []
+            if real_rows:
+                self.violate("doomed_nonempty", {"mode": mode, "rows_returned_by_the_engines": len(real_rows),
+                                                 "messages": d.messages[:3]}, entry=t)
+                return
         empty = len(truth) == 0
         if d.is_doomed and not empty:
             self.violate("doomed_nonempty", {"mode": mode, "rows": len(truth), "messages": d.messages[:3]}, entry=t)
@@ -980,7 +1002,15 @@ class ExtraOps:
                     self.violate("compile_not_repeatable", {"first": s1[:300], "second": s2[:300]}, entry=t)
                 r1 = w.run_sql(t.rel)
             else:
-                r1 = [{c.qualified_name: v for c, v in r.items()} for r in t.rel.engine.execute(t.rel)]
+                res = t.rel.engine.execute(t.rel)
+                r1 = [{c.qualified_name: v for c, v in r.items()} for r in res]
+                if not w.fault.fired:
+                    # the object execute() returned is a (re-)iterable: a second pass over the very same object
+                    r1b = [{c.qualified_name: v for c, v in r.items()} for r in res]
+                    if r1b != r1:
+                        self.violate("execute_not_repeatable", {"first_pass": r1[:6], "second_pass_of_same_result": r1b[:6]},
+                                     entry=t)
+                        return
         except Exception as e:  # noqa
             self.on_exec_exception(t, e)
             return
@@ -1067,6 +1097,7 @@ class ExtraOps:
             if got is not None:
                 self.stats["full_iterations"] += 1
                 self.check_rows(t, got)
+                self.check_bounds(t, len(got))
                 if first is not None and got != first:
                     self.violate("iteration_not_repeatable", {"first": first[:5], "again": got[:5]}, entry=t)
                 first = got
